@@ -42,11 +42,12 @@ def install(I):
     M[b + "any"] = lambda I, x: _any(I, x)
     M[b + "all"] = lambda I, x: _all(I, x)
     M[b + "sum"] = lambda I, x, start=0: _sum(I, x, start)
-    M[b + "float"] = lambda I, x=0: core.to_float(x)
+    M[b + "float"] = lambda I, x=0: _to_float(x)
     M[b + "setattr"] = lambda I, o, n, v: I.setattr_(o, n, v)
     M[b + "getattr"] = m_getattr
     M[b + "hasattr"] = m_hasattr
     M[b + "open"] = m_open
+    M[b + "iter"] = lambda I, x: __import__("pyvc.interp", fromlist=["LazyIter"]).LazyIter(x)
     M[b + "exit"] = m_exit
     M[b + "quit"] = m_exit
     M[b + "Exception"] = ExcClass("Exception")
@@ -58,6 +59,7 @@ def install(I):
     M["ipaddress.IPv6Address"] = lambda I, a: _ipaddr(I, a, 16)
     M["ipaddress.addr.__str__"] = lambda I, o: IpStr(o.attrs["packed"], o.attrs["version"])
     M["typing.cast"] = lambda I, t, v: v
+    M["struct.unpack_from"] = m_unpack_from
     M["copy.deepcopy"] = m_deepcopy
     M["copy.copy"] = m_deepcopy
     M["math.floor"] = m_floor
@@ -213,6 +215,10 @@ def m_set(I, x=()):
 
 def m_str(I, x=""):
     from .interp import OpaqueStr
+    if isinstance(x, SymInt):
+        from .strings import PieceStr, IntPiece
+        if core.CUR.prove(x.t >= 0):
+            return PieceStr([IntPiece(x)])
     if isinstance(x, (str, int, float)) and not isinstance(x, bool):
         return str(x)
     if isinstance(x, bool):
@@ -384,6 +390,74 @@ def _ipaddr(I, a, n):
     return Obj(None, {"packed": v, "version": 4 if n == 4 else 6}, kind="ipaddress.addr")
 
 
+def _to_float(x):
+    if isinstance(x, core.PowExpr):
+        return core.FloatExpr("float_pow", (x.base, x.exp))
+    if isinstance(x, core.FloatExpr):
+        return x
+    return core.to_float(x)
+
+
+def m_unpack_from(I, fmt, buf, offset=0):
+    """struct.unpack_from for formats made of B / H / I and <n>s items, n possibly symbolic (piece-list strings)"""
+    from .strings import PieceStr, IntPiece
+    parts = fmt.parts if isinstance(fmt, PieceStr) else [fmt]
+    items, count = [], None
+    for p in parts:
+        if isinstance(p, IntPiece):
+            if count is not None:
+                raise Unsupported("struct format with adjacent counts")
+            count = p.v
+            continue
+        if not isinstance(p, str):
+            raise Unsupported("struct format piece %r" % (p,))
+        i = 0
+        while i < len(p):
+            ch = p[i]
+            if ch.isdigit():
+                j = i
+                while j < len(p) and p[j].isdigit():
+                    j += 1
+                if count is not None:
+                    raise Unsupported("struct format with adjacent counts")
+                count = int(p[i:j])
+                i = j
+                continue
+            if ch in "<>!=@" and not items and count is None:
+                raise Unsupported("struct byte-order prefix")
+            if ch == "s":
+                items.append(("s", 1 if count is None else count))
+            elif ch in "BHI":
+                for _ in range(1 if count is None else (count if isinstance(count, int) else core.CUR.concretize(count, what="struct repeat"))):
+                    items.append((ch, None))
+            else:
+                raise Unsupported("struct format char %r" % ch)
+            count = None
+            i += 1
+    if count is not None:
+        raise PyExc("struct.error", "repeat count given without format specifier")
+    b = to_bytes_val(buf)
+    off = offset
+    total = off
+    for kind, n in items:
+        total = total + (n if kind == "s" else {"B": 1, "H": 2, "I": 4}[kind])
+    if I.truth(core.cmp_num("<", b.length, total)):
+        raise PyExc("struct.error", "unpack_from requires a buffer of at least that many bytes")
+    out = []
+    for kind, n in items:
+        if kind == "s":
+            out.append(bslice(b, off, off + n))
+            off = off + n
+        else:
+            w = {"B": 1, "H": 2, "I": 4}[kind]
+            v = 0
+            for k in range(w):        # native byte order is little endian on the supported platforms; only "B" is used
+                v = v + b.at(off + k) * (256 ** k)
+            out.append(v)
+            off = off + w
+    return tuple(out)
+
+
 def m_exit(I, *a):
     raise PyExc("SystemExit", "exit")
 
@@ -519,6 +593,8 @@ def binop_model(I, op, a, b, inplace=False):
         fn = I.models.get(a.kind + ".__truediv__")
         if fn is not None:
             return fn(I, a, b)
+    if isinstance(a, core.FloatExpr) or isinstance(b, core.FloatExpr):
+        return a.pyvc_binop(I, tn, b, False) if isinstance(a, core.FloatExpr) else b.pyvc_binop(I, tn, a, True)
     if hasattr(a, "pyvc_binop"):
         return a.pyvc_binop(I, tn, b, False)
     if hasattr(b, "pyvc_binop"):
@@ -939,6 +1015,8 @@ def method_of(I, o, name):
     if isinstance(o, ExcValue):
         if name == "args":
             return (o.msg,)
+        if name in ("__str__", "__repr__"):
+            return Builtin("exc.__str__", lambda I: o.msg)
     if isinstance(o, float) and name == "is_integer":
         return Builtin("float.is_integer", lambda I: o.is_integer())
     if hasattr(o, "pyvc_getattr"):
@@ -983,7 +1061,13 @@ class HexStr:
 
 def _int_from_bytes(I, b, byteorder="big", signed=False):
     if signed is not False:
-        raise Unsupported("signed from_bytes")
+        u = _int_from_bytes(I, b, byteorder, False)
+        n = to_bytes_val(b).length
+        if is_sym(n):
+            n = core.CUR.concretize(n, what="from_bytes length")
+        if n == 0:
+            return 0
+        return core.ite(u >= 2 ** (8 * n - 1), u - 2 ** (8 * n), u)
     if byteorder == "little":
         v = to_bytes_val(b)
         n = v.length
